@@ -23,7 +23,6 @@ type histFuncs struct {
 
 func newHistFuncs() *histFuncs {
 	h := &histFuncs{fs: lib.Std().Alias(nil)}
-	h.fs.Aggr["keep"] = func(v []interface{}) (interface{}, error) { return v, nil }
 	h.fs.Filter["boom"] = func(v interface{}) (interface{}, error) {
 		if h.armed {
 			panic(errors.New("user function panics"))
@@ -194,7 +193,6 @@ func runC05(c *harness.Ctx, hf *histFuncs) {
 	r := c.Rand()
 	g := gen.New(r)
 	g.Funcs = append(g.Funcs, "boom")
-	g.Aggrs = append(g.Aggrs, "keep")
 	p := historyPath(r, g)
 	text, _ := p.Render(spec.Canon)
 	accessor := r.Intn(5) == 0
